@@ -141,38 +141,62 @@ def run(rep, ctx):
 # ------------------------------------------------------------------------------------------
 # P / N
 
+def _comparisons(g, fn):
+    """every comparison of the body as (named lhs, named rhs, name-free 'lhs ~ rhs' with the sides ordered)"""
+    from ..ranges import Eval, CMP_OPS
+    ev = Eval(fn)
+    out = []
+
+    def nf_pair(a_op, b_op):
+        fn.nf = True
+        try:
+            x, y = fn.fmt_op(a_op, 5), fn.fmt_op(b_op, 5)
+        finally:
+            fn.nf = False
+        return ' ~ '.join(sorted([x, y]))
+    for bi in sorted(fn.reach):
+        for st in fn.stmts(bi):
+            if st[0] == 'a' and st[2][0] == 'bin' and st[2][1] in CMP_OPS:
+                out.append((ev.canon(st[2][2]), ev.canon(st[2][3]), nf_pair(st[2][2], st[2][3])))
+        t = fn.term(bi)
+        if t['k'] == 'call' and t['f'].get('name') in ('lt', 'le', 'gt', 'ge', 'eq', 'ne') and len(t['a']) == 2:
+            a = ev._deref_arg(t['a'][0])
+            b = ev._deref_arg(t['a'][1])
+            if a and b:
+                out.append((ev.canon(a), ev.canon(b), nf_pair(a, b)))
+        if t['k'] == 'switch':
+            # a switch directly on an integer compares it with each listed value
+            fn.nf = True
+            try:
+                dn = fn.fmt_op(t['d'], 5)
+            finally:
+                fn.nf = False
+            for v, _ in t['v']:
+                out.append((ev.canon(t['d']), 'const:%s' % v, ' ~ '.join(sorted([dn, str(v)]))))
+    return out
+
+
+def _named_match(cmps, want_a, want_b):
+    return [c for c in cmps if (want_a in c[0] and want_b in c[1]) or (want_a in c[1] and want_b in c[0])]
+
+
 def requires_hold(g, entry):
     """A reviewed entry may name the guard it relies on: [{"fn": path, "cmp": [lhs_substr, rhs_substr]}].
-    The guard must still be present (a comparison between the two named expressions feeding a branch)."""
-    from ..ranges import Eval, CMP_OPS
+    The guard must still be present: a comparison between the two named expressions, or — when a local was renamed —
+    at least as many comparisons with the guard's name-free form (`cmp_nf`, `count`, recorded by tools/annotate_requires.py
+    on the pinned tree) as there were."""
     for rq in entry.get('requires', []):
         fn = g.fns.get(rq['fn'])
         if fn is None:
             return False, 'function %s is gone' % rq['fn']
-        ev = Eval(fn)
+        cmps = _comparisons(g, fn)
         want_a, want_b = rq['cmp']
-        found = False
-        for bi in fn.reach:
-            for st in fn.stmts(bi):
-                if st[0] == 'a' and st[2][0] == 'bin' and st[2][1] in CMP_OPS:
-                    a, b = ev.canon(st[2][2]), ev.canon(st[2][3])
-                    if (want_a in a and want_b in b) or (want_a in b and want_b in a):
-                        found = True
-            t = fn.term(bi)
-            if t['k'] == 'call' and t['f'].get('name') in ('lt', 'le', 'gt', 'ge', 'eq', 'ne') and len(t['a']) == 2:
-                a = ev._deref_arg(t['a'][0])
-                b = ev._deref_arg(t['a'][1])
-                if a and b:
-                    a, b = ev.canon(a), ev.canon(b)
-                    if (want_a in a and want_b in b) or (want_a in b and want_b in a):
-                        found = True
-            if t['k'] == 'switch' and want_b.startswith('const:'):
-                # switch directly on the integer
-                if want_a in ev.canon(t['d']) and any(('const:%s' % v) == want_b for v, _ in t['v']):
-                    found = True
-        if not found:
-            return False, 'the guard `%s ? %s` that the reviewed reason relies on is no longer present in %s' % (
-                want_a, want_b, rq['fn'])
+        if _named_match(cmps, want_a, want_b):
+            continue
+        if rq.get('cmp_nf') and sum(1 for c in cmps if c[2] in rq['cmp_nf']) >= rq.get('count', 1):
+            continue
+        return False, 'the guard `%s ? %s` that the reviewed reason relies on is no longer present in %s' % (
+            want_a, want_b, rq['fn'])
     return True, ''
 
 
